@@ -1,0 +1,16 @@
+//go:build verif
+
+package commands
+
+// Contracts for the top-level commands (property C14: wipe).
+// Comment-only file: it is compiled only with -tags verif and contains no code.
+
+// runWipe: when it reports success, every entity is gone, no git-bug key is left in the local configuration
+// and the local storage has been emptied. It must get there from every configuration state - also when
+// no user identity is set and when the git-bug section does not exist at all.
+//@ func runWipe
+//@   props C14
+//@   requires env != nil && env.Backend != nil && env.Out != nil
+//@   ensures [entities-gone] result == nil ==> cache.entitiesWiped
+//@   ensures [config-gone]   result == nil ==> (forall k string :: { (k in repository.cfgKeys) } (k in repository.cfgKeys) ==> !strings.HasPrefix(k, "git-bug"))
+//@   ensures [storage-gone]  result == nil ==> repository.storageWiped
